@@ -811,6 +811,9 @@ def memo_is_local(ctx, o, S):
         a = pass_state_arg(ctx.prog, ps, c, ex, ps.memo)
         if a is not None and (match("[]", a) or match("list()", a) or match("set()", a)):
             o.site(calc, c, "memo allocated by this calc call")
+        elif isinstance(a, (ast.ListComp, ast.SetComp)) or (isinstance(a, (ast.List, ast.Set)) and a.elts):
+            o.refute(calc, c, c, f"the memo handed to the pass starts non-empty (`{src(a)[:70]}`): every task whose id equals a pre-marked id "
+                                 f"is skipped by the pass - no dates, no roll-up (ids are unique only inside one WBS)")
         else:
             o.refute(calc, c, c, f"the memo handed to the pass is `{src(a) if a is not None else '?'}`, not a container allocated by this call")
 
@@ -965,12 +968,30 @@ def recursion_stays_in_wbs(ctx, o, S):
             continue
         elem = c.args[0].id if isinstance(c.args[0], ast.Name) else None
         verdict = None
+        widened = None          # a guard that also lets tasks outside the WBS through: `same or elem.wbs is None`
+        mentions = []           # conditions that speak about the element in a form the rule does not interpret
         if elem:
+            loop_c = ps.conds(fo)
             for t, pol in ps.conds(c):
                 g = _same_wbs_guard(t, pol, elem, task)
                 if g is not None:
                     verdict = g
                     break
+                if any(same(t, lt) and pol == lp for lt, lp in loop_c):
+                    continue
+                core, q = t, pol
+                while isinstance(core, ast.UnaryOp) and isinstance(core.op, ast.Not):
+                    core, q = core.operand, not q
+                if isinstance(core, ast.BoolOp) and ((isinstance(core.op, ast.Or) and q) or (isinstance(core.op, ast.And) and not q)):
+                    # a disjunction of ways to get through
+                    ds = [(v, q) for v in core.values]
+                    gs = [_same_wbs_guard(v, p_, elem, task) for v, p_ in ds]
+                    outside = [bool(gs[i] is False or facts.cond_is(ds[i][0], ds[i][1], f"{elem}.wbs is None", want=True)) for i in range(len(ds))]
+                    if any(g_ is True for g_ in gs) and all(gs[i] is True or outside[i] for i in range(len(ds))) and any(outside):
+                        widened = t
+                        continue
+                if any(isinstance(x, ast.Name) and x.id == elem for x in ast.walk(t)):
+                    mentions.append(t)
         if verdict is None:
             # the collection itself may be filtered: [p for p in LINKS if p.wbs is task.wbs]
             parts = facts.comp_parts(collx) if isinstance(collx, (ast.ListComp, ast.GeneratorExp)) else None
@@ -980,12 +1001,22 @@ def recursion_stays_in_wbs(ctx, o, S):
                         g = _same_wbs_guard(t, pol, parts[1].id, task)
                         if g is not None:
                             verdict = g
+                        elif any(isinstance(x, ast.Name) and x.id == parts[1].id for x in ast.walk(t)):
+                            mentions.append(t)
         if verdict:
             o.site(f, c, f"recursion over {rel} only for tasks that report the WBS being scheduled")
         elif verdict is False:
             o.refute(f, c, f"recursion over {rel}", f"`{src(c)[:70]}` runs only for linked tasks OUTSIDE the WBS being scheduled")
+        elif widened is not None:
+            o.refute(f, c, f"recursion over {rel}",
+                     f"`{src(c)[:70]}` also runs when `{src(widened)[:70]}` holds for a task that is not in the WBS being scheduled (a task "
+                     f"without WBS / of another WBS): the pass schedules (writes) tasks outside the clone")
         elif cs['unknown'] and not (cs['own'] or cs['ancestors']):
             o.undecided(f, c, f"recursion over {rel}", f"the collection `{src(coll)[:60]}` is built in a form that is not followed; no membership guard found")
+        elif mentions:
+            o.undecided(f, c, f"recursion over {rel}",
+                        f"`{src(c)[:60]}` runs under `{src(mentions[0])[:60]}`, a test on the linked task the rule cannot read as `it belongs "
+                        f"to the WBS being scheduled`")
         else:
             o.refute(f, c, f"recursion over {rel}",
                      f"`{src(c)[:70]}` runs for every linked task, also for tasks outside the WBS being scheduled: the pass walks out of "
